@@ -31,6 +31,16 @@ add("C06", "exploration",
     "inputs come from the seeded workload generator (several chromosomes, read groups, multi-mappers, 1-2 experiments).",
     "deterministic simulation: seeded scheduler over forked pipeline workers + hash-seed fork servers, golden-run equality")
 
+add("C07", "fault_enumeration",
+    "For each (workload, cell) the fault-free trace is recorded and the process tree is SIGKILLed before and after file-system "
+    "events of that trace (quick: one representative index per distinct stage/label x phase; thorough: every index, plus "
+    "resume with other --threads/schedules and random workloads/cells); after each kill `isoquant.py --resume` runs and "
+    "all outputs are compared with the uninterrupted control run. Real processes, real buffers, real destructors.",
+    "A kill loses user-space buffers only (no power-loss semantics); C-level writes of pysam/pyfaidx/sqlite are single events; "
+    "crash points are the tracked file-system mutations (open for write, raw write/flush, remove, rename, makedirs).",
+    "deterministic simulation: crash-point enumeration over the recorded event trace, kill-tree fault + resume, golden equality",
+    qt=1200, tt=3000)
+
 PENDING = {p: "simulation target (DESIGN.md sections 3-4) whose check is not registered in this revision yet"
            for p in ["C02", "C03", "C05", "C07", "C08", "C09", "C10", "C12", "C15", "C17", "C18", "C20"]}
 
